@@ -159,7 +159,7 @@ func vfMutate(t *rapid.T, m *mgen.Manifest) (string, string, bool) {
 	}
 	fileIdx := 1 + nblk + rapid.IntRange(0, len(toks)-nblk-2).Draw(t, "mutFile")
 	blkIdx := 1 + rapid.IntRange(0, nblk-1).Draw(t, "mutBlk")
-	kind := rapid.SampledFrom([]string{"no-locators", "no-file-tokens", "non-numeric-pos", "non-numeric-size", "past-end", "locator-without-size", "no-final-newline", "file-dir-conflict", "negative-pos", "drop-token", "dup-token", "swap-tokens", "change-char", "double-space", "blank-line", "empty-stream-name", "huge-number", "wraparound"}).Draw(t, "mutKind")
+	kind := rapid.SampledFrom([]string{"no-locators", "no-file-tokens", "non-numeric-pos", "non-numeric-size", "past-end", "empty-past-end", "locator-without-size", "no-final-newline", "file-dir-conflict", "negative-pos", "drop-token", "dup-token", "swap-tokens", "change-char", "double-space", "blank-line", "empty-stream-name", "huge-number", "wraparound"}).Draw(t, "mutKind")
 	switch kind {
 	case "no-locators":
 		toks = append(toks[:1], toks[1+nblk:]...)
@@ -182,6 +182,11 @@ func vfMutate(t *rapid.T, m *mgen.Manifest) (string, string, bool) {
 	case "past-end":
 		parts := strings.SplitN(toks[fileIdx], ":", 3)
 		toks[fileIdx] = fmt.Sprintf("%d:%d:%s", m.Streams[li].Len(), 1+rapid.IntRange(0, 5).Draw(t, "pastBy"), parts[2])
+		return join(), kind, true
+	case "empty-past-end":
+		// a zero-length file token that starts beyond the end of the stream
+		parts := strings.SplitN(toks[fileIdx], ":", 3)
+		toks[fileIdx] = fmt.Sprintf("%d:0:%s", m.Streams[li].Len()+1+int64(rapid.IntRange(0, 100).Draw(t, "pastBy0")), parts[2])
 		return join(), kind, true
 	case "wraparound":
 		parts := strings.SplitN(toks[fileIdx], ":", 3)
